@@ -122,6 +122,14 @@ def gen(ctx, l404, l400):
         evs = [H(1 + 2 * i, 200, 100000, reqlen=-1, es=0) for i in range(8 + extra)]
         lines.append("h2 S:0:0:4=0:0 q " + " ".join(evs) + " q W:0:4:2000000 q")
         lines.append("h2 S:0:0:4=0:0 q " + " ".join(evs[:8]) + " q R:3:4:8 " + " ".join(evs[8:]) + " q")
+        # frames in flight for a refused stream, then retries once slots are free again
+        last = 1 + 2 * (8 + extra - 1)
+        nxt = last + 2
+        lines.append("h2 S:0:0:4=0:0 q " + " ".join(evs) + " D:%d:5:-:1 q W:0:4:2000000 q" % last)
+        lines.append("h2 S:0:0:4=0:0 q " + " ".join(evs) + " W:%d:4:100 R:%d:4:8 q R:1:4:8 R:3:4:8 q %s %s q"
+                     % (last, last, H(nxt, 200, 10, es=1), H(nxt + 2, 404, l404, es=1)))
+        lines.append("h2 S:0:0:4=0:0 q " + " ".join(evs) + " q S:0:0:4=65535:0 q W:0:4:2000000 q %s %s %s q"
+                     % (H(nxt, 200, 10, es=1), H(nxt + 2, 400, l400, es=1), H(nxt + 4, 200, 3000, es=1)))
     return lines
 
 
@@ -173,12 +181,21 @@ def build_frames(c, tok, rng, opened=None):
                 hs.append((":path", "/f%d.bin" % body))
             elif status == 404:
                 hs.append((":path", "/nope"))
-            # status 400: no :path
+            # status 400: no :path, or (every other stream) a forbidden field in mid-block,
+            # so that the rest of the block -- with a new dynamic-table entry -- is discarded
+            elif (sid // 2) % 2 == 1:
+                hs.append((":path", "/nope"))
             hs.append((":authority", "localhost"))
+            if status == 400 and (sid // 2) % 2 == 1:
+                hs.append(("te", "gzip"))
             if reqlen > 0:
                 hs.append(("content-length", str(reqlen)))
             if incr:
                 hs.append(("priority", "u=3, i"))
+            # a field the client's encoder indexes: three consecutive streams share a value, so
+            # blocks the server discards (refused streams, rejected requests, trailers) insert
+            # entries that later requests reference -- a decoder that loses them goes out of sync
+            hs.append(("x-u", "u%d" % (sid // 6)))
             blk = c.hp.encode(hs)
         fl = es
         pre = b""
